@@ -65,7 +65,10 @@ def fill? : Sexp → Option (Fill Entry)
   | .list [.atom "fill", e] => do some (.value (← entry? e))
   | .list [.atom "template", .atom pre, .atom mid, .atom post, pn] => do
     let pn ← strs? pn
-    some (.template fun a b => .sym (pre ++ pn.getD a "?" ++ mid ++ pn.getD b "?" ++ post))
+    some (.template fun a b =>
+      match pn[a]?, pn[b]? with
+      | some x, some y => some (.sym (pre ++ x ++ mid ++ y ++ post))
+      | _, _ => none)
   | _ => none
 
 def pairS (p : String × Entry) : Sexp := .list [.atom p.1, entryS p.2]
